@@ -110,6 +110,13 @@ def header_builder(ctx, rule, fv, who, src, n, k):
         if b and b["val"][0] == "node":
             alloc = fv.term(b["val"][1])
     ok_alloc = alloc is not None and alloc[0] == "call" and alloc[1].endswith("from_elem") and alloc[3] == n
+    if not ok_alloc and base[0] == "local":
+        # `Vec::with_capacity(n)` / `Vec::new()` followed by `resize_with(n, String::new)` / `resize(n, String::new())`
+        rs = [x for x in fv.nodes if x.get("k") == "mcall" and cname(x).split("::")[-1] in ("resize_with", "resize")
+              and fv.term(x["recv"]) in (base, ("ver",) ) or (x.get("k") == "mcall" and cname(x).split("::")[-1] in ("resize_with", "resize")
+              and x["recv"].get("k") in ("local", "addr") and (x["recv"] if x["recv"].get("k") == "local" else x["recv"]["e"]).get("id") == base[2])]
+        ok_alloc = len(rs) == 1 and alloc is not None and alloc[0] == "call" and alloc[1].split("::")[-1] in ("with_capacity", "new") \
+            and fv.term(rs[0]["args"][0]) == n
     ctx.check(rule, "%s:len" % who, ok_alloc, "header vector has %s entries" % show(n),
               "header vector is allocated as `%s`, expected %s entries" % (show(alloc) if alloc else "?", show(n)),
               line_of(w))
